@@ -104,6 +104,9 @@ type fx struct {
 	cellRefs    []cellRef
 	curCallee   *ssa.CallCommon
 	keepAllRegs []region
+	keepAllInit  bool
+	heapAllocs   []heapAlloc
+	keepAllLocal []*Expr // keepsall expressions over locals, evaluated per call
 	localRefs   []string // refs of non-escaping locals of this activation
 	curInstr    ssa.Instruction
 	ghostHavocIsUnmodelled bool
